@@ -74,10 +74,7 @@ theorem csp_set_eq_spec (fs : List Rule) (d : Str) :
       rintro ⟨g, ⟨hg, hge, hgc⟩, hgm⟩
       exact hnd ⟨g, hg, hge, hgc, hgm⟩
 
-/-- the returned list has no duplicate directive (it stands for a set) -/
-theorem csp_nodup (fs : List Rule) : (directives (cspMerge fs)).Nodup := by
-  have hd : ∀ l : List Str, (dedupS l).Nodup := by
-    intro l
+theorem dedupS_nodup (l : List Str) : (dedupS l).Nodup := by
     unfold dedupS
     suffices h : ∀ acc : List Str, acc.Nodup →
         (l.foldl (fun acc x => if acc.contains x then acc else acc ++ [x]) acc).Nodup from h [] (by simp)
@@ -97,6 +94,35 @@ theorem csp_nodup (fs : List Rule) : (directives (cspMerge fs)).Nodup := by
         subst hb
         intro hab; subst hab
         apply hx; simpa using ha
+
+private theorem dedupS_go_nodup (l : List Str) : ∀ acc : List Str, (acc ++ l).Nodup →
+    l.foldl (fun acc x => if acc.contains x then acc else acc ++ [x]) acc = acc ++ l := by
+  induction l with
+  | nil => intro acc _; simp
+  | cons x xs ih =>
+    intro acc hn
+    simp only [List.foldl_cons]
+    have hx : acc.contains x = false := by
+      rw [List.nodup_append] at hn
+      have := hn.2.2
+      cases hc : acc.contains x with
+      | false => rfl
+      | true =>
+        exfalso
+        have hm : x ∈ acc := by simpa using hc
+        exact this x hm x (List.mem_cons_self ..) rfl
+    simp only [hx, Bool.false_eq_true, if_false]
+    have := ih (acc ++ [x]) (by simpa using hn)
+    simpa using this
+
+/-- a duplicate-free list is a fixed point of `dedupS` -/
+theorem dedupS_of_nodup (l : List Str) (h : l.Nodup) : dedupS l = l := by
+  unfold dedupS
+  simpa using dedupS_go_nodup l [] (by simpa using h)
+
+/-- the returned list has no duplicate directive (it stands for a set) -/
+theorem csp_nodup (fs : List Rule) : (directives (cspMerge fs)).Nodup := by
+  have hd := dedupS_nodup
   unfold cspMerge directives
   split
   · simp
